@@ -36,7 +36,10 @@ EXPLANATION = (
     'chain depth 0..2, `from None` or not, symbolic) must be raised at once - one call, no sleep, same object - by '
     'retry_transient_errors, retry_transient_errors_with_debug_string, retry_transient_errors_with_delayed_warnings '
     'and sync_retry_transient_errors; the expected verdict there comes from the property text ("any other error"), so '
-    'a classifier that is widened to look through __context__ is reported. The exception catalogue is finite: classes not named by the '
+    'a classifier that is widened to look through __context__ is reported; likewise every builtin OSError subclass that '
+    'no classifier branch names exactly (ConnectionAbortedError, BrokenPipeError, bare ConnectionError, '
+    'FileNotFoundError, PermissionError, ...) with a symbolic errno 0..200 that the classifiers compare nowhere must be '
+    'raised at once by all four helpers. The exception catalogue is finite: classes not named by the '
     'classifiers (other than the listed permanent ones) are outside the claim.'
 )
 SRC = 'hail/python/hailtop/utils/utils.py'
@@ -46,6 +49,7 @@ FUNCS = ('retry_transient_errors', 'retry_transient_errors_with_delayed_warnings
 CLS_LOOP = 'retry-loop-deviates-from-policy'
 CLS_DELAY = 'delay-outside-documented-bounds'
 CLS_CTX = 'unclassified-error-retried-because-of-implicit-context'
+CLS_OSX = 'unnamed-oserror-subclass-retried'
 
 
 # ---------------------------------------------------------------------------------------------------
@@ -263,7 +267,13 @@ def _groups(H):
             lo = k + 1
     if lo < H.K:
         out.append((lo, H.K))
-    return out
+    capped = []
+    for lo, hi in out:          # at most 8 kinds per CrossHair process
+        while hi - lo > 8:
+            capped.append((lo, lo + 8))
+            lo += 8
+        capped.append((lo, hi))
+    return capped
 
 
 def run(R):
@@ -278,6 +288,8 @@ def run(R):
                 'cause_chain_depth': '0..2', 'sequence_lengths': f'1..{maxn}', 'representative_kinds': nreps,
                 'implicit_context_family': '6 outside-vocabulary outer kinds x status 400..405 x 24 context kinds x '
                                            'context depth 0..2 x suppress yes/no x 4 retry helpers',
+                'unnamed_oserror_family': 'every builtin OSError subclass not exactly named by a classifier x errno 0..200 '
+                                          'outside the reference set x 4 retry helpers',
                 'jitter_in_loop_runs': 'min / mid / max draw (all draws: z3 proof of delay_ms_for_try)',
                 'delay_ms_for_try': 'all tries >= 0; base 1..2^20, max 0..2^31 (and the defaults)'}
     R.assume(
@@ -291,7 +303,11 @@ def run(R):
         'aiohttp.ClientOSError, aiohttp.ClientConnectorError) are subclasses whose errno/strerror are Python '
         'properties, so that a symbolic errno survives construction (OSError.__init__ is C code)',
         'the catalogue is one constructor per class named in an isinstance test of the three classifiers (derived from '
-        'their AST each run; an unknown class is a harness error), plus ValueError, Exception, KeyboardInterrupt and '
+        'their AST each run: hand-written constructors for the classes the table knows, a generic one otherwise - '
+        'OSError family through a subclass with Python-property errno/strerror, other classes by no-argument '
+        'construction; only a name that cannot be resolved or constructed is a harness error), plus every builtin '
+        'subclass of a named builtin class that is not named itself (OSError brings ConnectionAbortedError, '
+        'BrokenPipeError, FileNotFoundError, ...), plus ValueError, Exception, KeyboardInterrupt and '
         'asyncio.CancelledError; message/body strings range over "", each constant the classifiers search for, and all '
         'of them joined; exception classes outside the catalogue are not covered',
         'aiohttp.ClientPayloadError is always built with a message (is_transient_error indexes e.args[0])',
@@ -303,6 +319,11 @@ def run(R):
         'are 400..405 (client errors other than 408/429) with an empty body; for the sync helper `time.sleep` is a '
         'recorder in the utils namespace; the explicit `raise ... from` dimension keeps the code\'s documented rule '
         '(follow __cause__) with the classifiers as oracle',
+        'family X part 2: a builtin OSError subclass whose class object is not exactly named by any classifier branch, '
+        'with an errno the classifiers compare nowhere, is "any other error" by the property text and must be raised at '
+        'once; the errno reference set (RETRYABLE_ERRNOS, the integer constants in the classifiers\' source, '
+        'socket.EAI_AGAIN/EAI_NONAME) is read from the tree under test - a pinned reference, the property text names '
+        'no errno; a class that a branch names exactly is judged by families A/B with the classifiers as oracle',
         'position sweeps use TransientError for the first t-1 failures; the only state the loop carries between '
         'iterations is `tries` (sequence family B varies the earlier failures too, up to the stated length)',
         'in loop runs the jitter draw is the minimum, the middle or the maximum of its range (the loop divides by 1000.0, '
@@ -342,12 +363,14 @@ def run(R):
             seqs.append((n, prefix, 'ok' if alive else 'raised'))
     gm = chrun.gen_module(f'C21_conditions_{R.tier}', C21_template.source(
         sweeps, seqs, H.K, H.MAXS, nreps, ctx=H.HELPERS, NO=len(H.OUTSIDE), SLO=H.PERMANENT_HTTP[0],
-        SHI=H.PERMANENT_HTTP[1]))
+        SHI=H.PERMANENT_HTTP[1], NOSX=len(H.OSX), EMAX=H.ERRNO_MAX))
     targets = [f'{gm}.sweep{t}_{lo}_{hi}' for t, lo, hi in sweeps]
     targets += [f'{gm}.sweep{t}_reach_{w}' for t in ts for w in ('ok', 'raised')]
     tag = C21_template.seq_tag
     targets += [f'{gm}.seq{n}_{tag(pf)}' for n, pf, _ in seqs] + [f'{gm}.seq{n}_{tag(pf)}_reach' for n, pf, _ in seqs]
     targets += [f'{gm}.ctx_{h}' for h in H.HELPERS] + [f'{gm}.ctx_{h}_reach' for h in H.HELPERS]
+    if H.OSX:
+        targets += [f'{gm}.osx_{h}' for h in H.HELPERS] + [f'{gm}.osx_{h}_reach' for h in H.HELPERS]
     res = chrun.run(targets, per_condition_timeout=pct, workers=8)
 
     def handle(name, target, twins, argnames, to_replay):
@@ -364,7 +387,7 @@ def run(R):
             why = explain(rep, H)
             if not why:
                 raise HarnessError(f'CrossHair counterexample does not reproduce concretely: {msg}')
-            st = R.finding(CLS_CTX if rep['family'] == 'context' else CLS_LOOP, f'{rep}: {why}', rep)
+            st = R.finding({'context': CLS_CTX, 'osx': CLS_OSX}.get(rep['family'], CLS_LOOP), f'{rep}: {why}', rep)
             R.ob(name, st, dt, {'cex': rep, 'why': why}, nontrivial=True)
         else:
             R.ob(name, 'not_discharged', dt, {'crosshair': msg[-300:]})
@@ -389,6 +412,13 @@ def run(R):
                                'outer': H.OUTSIDE[a['okind']][0], 'status': a['status'], 'ckind': a['ckind'],
                                'context': H.CATALOGUE[a['ckind']][0], 'depth': a['depth'],
                                'suppress_context': a['sup']})
+    for h in (H.HELPERS if H.OSX else ()):
+        handle(f'{helper_name[h]}: a builtin OSError subclass that no classifier branch names '
+               f'({", ".join(c.__name__ for c in H.OSX)}) with an errno the classifiers compare nowhere (0..{H.ERRNO_MAX} '
+               f'minus {list(H.REF_ERRNOS)}) is raised at once after one call', f'{gm}.osx_{h}', [f'{gm}.osx_{h}_reach'],
+               ['okind', 'en'],
+               lambda a, h=h: {'family': 'osx', 'helper': h, 'okind': a['okind'], 'class': H.OSX[a['okind']].__name__,
+                               'errno': a['en']})
     for n, pf, _ in seqs:
         handle(f'loop: every sequence of {n} failures over the representative kinds starting with '
                f'{[keys[k] for k in pf]} (lim,rate,trans)', f'{gm}.seq{n}_{tag(pf)}', [f'{gm}.seq{n}_{tag(pf)}_reach'],
@@ -400,6 +430,9 @@ def run(R):
 def explain(rep, H):
     """re-execute a replay dict on the real code; '' when the property holds"""
     try:
+        if rep['family'] == 'osx':
+            k = [c.__name__ for c in H.OSX].index(rep['class']) if rep.get('class') in [c.__name__ for c in H.OSX] else rep['okind']
+            return H.osx_check(rep['helper'], k, rep['errno'])
         if rep['family'] == 'context':
             return H.context_check(rep['helper'], rep['okind'], rep['status'], rep['ckind'], rep['depth'],
                                    rep['suppress_context'])
